@@ -3,42 +3,33 @@ import MythVerif.Proofs.WsQueueTsoTac
 namespace MythVerif.WsqTso
 open MythVerif.Wsq
 
-set_option maxHeartbeats 4000000 in
 theorem o_pq (s s' : St) : Inv s → s.opc = .pq → stepO s = some s' → Inv s' := by
   intro h heq hs
   have hc := h.carryC (by simp [heq, carry])
   have hv := carry_viewTop _ _ _ _ _ hc
   have hv2 := carry_viewBase _ _ _ _ _ s.base hc
-  cases h
   simp only [stepO, heq, hv, hv2] at hs
   split at hs
   all_goals (simp at hs; subst hs)
-  all_goals simp only [heq, ownerLocked, carry, resetting, ownerFlight] at *
-  all_goals tso_finish
+  all_goals tso_fastO h heq [carryC]
 
-set_option maxHeartbeats 4000000 in
 theorem o_po1 (s s' : St) : Inv s → s.opc = .po1 → stepO s = some s' → Inv s' := by
   intro h heq hs
   have hc := h.carryC (by simp [heq, carry])
   have hv := carry_viewTop _ _ _ _ _ hc
-  cases h
   simp only [stepO, heq, hv] at hs
   simp at hs; subst hs
-  simp only [heq, ownerLocked, carry, resetting, ownerFlight] at *
-  tso_finish
+  tso_fastO h heq [carryC]
 
-set_option maxHeartbeats 4000000 in
 theorem o_pof (s s' : St) (t) : Inv s → s.opc = .pof t → stepO s = some s' → Inv s' := by
   intro h heq hs
   have hcfg := h.cfg
-  cases h
   simp only [stepO, heq, fenceOk, hcfg, code_popFence] at hs
   split at hs
   · rename_i hb
     simp at hb
     simp at hs; subst hs
-    simp only [heq, ownerLocked, carry, resetting, ownerFlight] at *
-    tso_finish
+    tso_fastO h heq [pof]
   · simp at hs
 
 end MythVerif.WsqTso
